@@ -157,7 +157,8 @@ func runRemote(c *Ctx, sh *shared, dir string) {
 	// the header line of a results stream against every chunking: a link that holds the remote
 	// node's bytes back and releases them in one piece, and a scripted remote that cuts header and
 	// output as it likes
-	wg.Add(2)
+	wg.Add(3)
+	go func() { defer wg.Done(); runCancels(c, sh, filepath.Join(dir, "cancels")) }()
 	go func() { defer wg.Done(); runStalls(c, sh, filepath.Join(dir, "stalls")) }()
 	go func() { defer wg.Done(); runStandin(c, sh, filepath.Join(dir, "standin")) }()
 	wg.Wait()
